@@ -64,12 +64,11 @@ lg = jnp.concatenate(tuple(jnp.where(m, d.logits, -jnp.inf) for d, m in zip(self
              detail=show(f.get("arg:action_dims", NONE)))
 
 
-def check(s):
+def check_mask_gate(s, rule="C16.2"):
+    """ActionLayer applies the mask exactly when one is given and the law is maskable (whatever kind of maskable law it is), and the
+    policy forwards its own action_mask to the head when acting and when re-evaluating."""
     P = s.prog
     self_ = ("param", "self")
-    mask = ("param", "mask")
-    # ---------------------------------------------------------------- C16.1
-    check_mask_laws(s, "C16.1")
     # ---------------------------------------------------------------- C16.2
     b = s.builder(inline=set())
     nz = Normalizer(b)
@@ -81,7 +80,7 @@ def check(s):
         # the early-return De Morgan spelling, nested ifs and inverted branches are one and the same
         roots = [p.ret] + [t_ for t_, _ in p.conds]
         dists = {c for r_ in roots for c in walk(r_) if isinstance(c, tuple) and c and c[0] == "call" and c[1] == ("attr", self_, "action_dist")}
-        s.ob("C16.2", "ActionLayer.__call__", len(dists) == 1, "dist = self.action_dist(features), one distribution per path", loc,
+        s.ob(rule, "ActionLayer.__call__", len(dists) == 1, "dist = self.action_dist(features), one distribution per path", loc,
              key="dist-source", detail="; ".join(show(d_, maxlen=120) for d_ in dists) or "None")
         if len(dists) != 1:
             continue
@@ -92,20 +91,20 @@ def check(s):
         shown = f"conditions: {[(show(t_, maxlen=80), v_) for t_, v_ in p.conds]}; returns {show(p.ret, maxlen=120)}"
         if e is None:
             uses_mask = amask in set(walk(p.ret))
-            s.ob("C16.2", "ActionLayer.__call__" + ("" if uses_mask else "[path without the mask gate]"), False,
+            s.ob(rule, "ActionLayer.__call__" + ("" if uses_mask else "[path without the mask gate]"), False,
                  "the mask is applied exactly when (action_mask is not None) and the distribution is maskable: every path decides both" if uses_mask else
                  "every path either applies the mask or has established that action_mask is None", loc, key="mask-gate" if uses_mask else "mask-ignored-path", detail=shown,
                  necessary_for="neither sampling nor the mode ever returns a masked action, for every policy configuration (head depth included)")
             continue
-        s.ob("C16.2", "ActionLayer.__call__", True, "the path decides the gate (action_mask is not None) and isinstance(dist, AbstractMaskableDistribution)", loc, key="mask-gate")
+        s.ob(rule, "ActionLayer.__call__", True, "the path decides the gate (action_mask is not None) and isinstance(dist, AbstractMaskableDistribution)", loc, key="mask-gate")
         if e:
             n_masked += 1
             want = ("call", ("attr", dist, "mask"), (amask,), ())
-            s.ob("C16.2", "ActionLayer.__call__[mask]", nz.canon(p.ret) == nz.canon(want), "returns dist.mask(action_mask)", loc, key="mask-applied", detail=shown,
+            s.ob(rule, "ActionLayer.__call__[mask]", nz.canon(p.ret) == nz.canon(want), "returns dist.mask(action_mask)", loc, key="mask-applied", detail=shown,
                  necessary_for="neither sampling nor the mode ever returns a masked action, end-to-end through the policy")
         else:
             n_plain += 1
-            s.ob("C16.2", "ActionLayer.__call__[no mask]", nz.canon(p.ret) == nz.canon(dist), "otherwise returns the distribution unchanged", loc, key="nomask-passthrough", detail=shown)
+            s.ob(rule, "ActionLayer.__call__[no mask]", nz.canon(p.ret) == nz.canon(dist), "otherwise returns the distribution unchanged", loc, key="nomask-passthrough", detail=shown)
     if not (n_masked and n_plain):
         raise AnalysisError("ActionLayer.__call__: masked / unmasked cases missing")
     pol = "MLPActorCriticPolicy"
@@ -113,9 +112,19 @@ def check(s):
         bb = s.builder(inline=set())
         for p in live(s.paths(bb, pol, meth)):
             heads = [c for c in walk(p.ret) if isinstance(c, tuple) and c and c[0] == "call" and c[1] == ("attr", self_, "action_head")]
-            s.ob("C16.2", f"{pol}.{meth}", len(heads) == 1 and kwargs_of(heads[0]).get("action_mask", heads[0][2][1] if len(heads[0][2]) > 1 else None) == ("param", "action_mask"),
+            s.ob(rule, f"{pol}.{meth}", len(heads) == 1 and kwargs_of(heads[0]).get("action_mask", heads[0][2][1] if len(heads[0][2]) > 1 else None) == ("param", "action_mask"),
                  "the single self.action_head(...) call forwards this method's own action_mask", s.loc(pol, meth), key="head-mask-forwarded",
                  detail="; ".join(show(h, maxlen=160) for h in heads), necessary_for="masks are honoured when acting and when re-evaluating stored actions")
+
+
+def check(s):
+    P = s.prog
+    self_ = ("param", "self")
+    mask = ("param", "mask")
+    # ---------------------------------------------------------------- C16.1
+    check_mask_laws(s, "C16.1")
+    # ---------------------------------------------------------------- C16.2
+    check_mask_gate(s, "C16.2")
     # ---------------------------------------------------------------- C16.3 registry
     b = s.builder(inline=set())
     m, fn = s.function("lerax.policy.actor", "make_action_layer")
